@@ -48,6 +48,18 @@ class MustClient(Client):
         self.exits = []                       # (kind, node, state)
 
     def _apply(self, n, s):
+        # a write to / non-const call on a receiver invalidates the pure-predicate facts remembered about it
+        tgt = None
+        if n.get('k') == 'call' and not n.get('mc') and n.get('recv') is not None:
+            tgt = recv_path(n)
+        elif n.get('k') == 'bin':
+            tgt = path_of(n.get('l'))
+        elif n.get('k') == 'un':
+            tgt = path_of(n.get('e'))
+        if tgt:
+            pre = 'p:%s.' % tgt
+            if any(x.startswith(pre) for x in s):
+                s = frozenset(x for x in s if not x.startswith(pre))
         add = [name for name, p in self.reqs.items() if name not in s and p(n)]
         return (s | frozenset(add),) if add else (s,)
 
@@ -72,6 +84,22 @@ class MustClient(Client):
                 if (t if not branch else f) in s:
                     return None     # contradicts an earlier evaluation on this path
                 s = s | {t if branch else f}
+        # generic path sensitivity on repeated pure predicates: x.empty(), x.size() == 0 ... (const, argument-free method on an access path)
+        key = None
+        if isinstance(atom, dict) and atom.get('k') == 'call' and atom.get('mc') and not atom.get('a') and recv_path(atom):
+            key = 'p:%s.%s' % (recv_path(atom), mname(atom))
+        elif isinstance(atom, dict) and atom.get('k') == 'bin' and atom.get('op') in ('==', '!='):
+            l, r = see_through(atom['l']), see_through(atom['r'])
+            c, lit = (l, r) if isinstance(r, dict) and r.get('k') == 'lit' else ((r, l) if isinstance(l, dict) and l.get('k') == 'lit' else (None, None))
+            if isinstance(c, dict) and c.get('k') == 'call' and c.get('mc') and not c.get('a') and recv_path(c):
+                key = 'p:%s.%s%s%s' % (recv_path(c), mname(c), '==', lit.get('v'))
+                if atom['op'] == '!=':
+                    branch = not branch
+        if key:
+            t, f = key + '=T', key + '=F'
+            if (f if branch else t) in s:
+                return None
+            s = s | {t if branch else f}
         return s
 
     def on_exit(self, kind, node, s):
